@@ -224,13 +224,29 @@ def write_data(wd, guard, edges, derive_feature, feats):
 
 # ------------------------------------------------------------------------------------------------ probes
 PROBE_PRELUDE = ('pub static K: i32 = 5;\npub trait Tr { type Assoc; }\n'
+                 '#[macro_export] macro_rules! impls { ($t:ty : $($tr:tt)+) => {{ trait Fb { const V: bool = false; } impl<T: ?Sized> Fb for T {} '
+                 'struct W<T: ?Sized>(::core::marker::PhantomData<T>); #[allow(dead_code)] impl<T: ?Sized + $($tr)+> W<T> { const V: bool = true; } <W<$t>>::V }} }\n'
                  'pub fn report(k: &str, rows: &[::std::string::String]) { println!("OBS {{\\"k\\": {:?}, \\"rows\\": [{}]}}", k, '
                  'rows.iter().map(|r| format!("{:?}", r)).collect::<::std::vec::Vec<_>>().join(", ")); }\n')
 
 
 # generic types deriving ONE derive whose expansion names traits of another feature (the operator of the fold): the
 # other impl is written by hand, so the derive's feature really is alone
+def _helper(ty):
+    """which traits a helper error type implements: Display / Debug always, std's Error when derive_more has `std` (rows starting
+    with `std:` are compared in the std configurations only)"""
+    return ([f'::std::format!("display:{{}}", impls!({ty}: ::core::fmt::Display))', f'::std::format!("debug:{{}}", impls!({ty}: ::core::fmt::Debug))',
+             f'::std::format!("std:error:{{}}", impls!({ty}: ::std::error::Error))'])
+
+
 EXTRA_PROBES = [
+    ("helper_error:FromStr", "#[derive(derive_more::FromStr, Debug)] pub enum E { A }", _helper("::derive_more::FromStrError")),
+    ("helper_error:TryInto", "#[derive(derive_more::TryInto, Debug)] pub enum E { A(i32) }", _helper("::derive_more::TryIntoError<m::E>")),
+    ("helper_error:TryFrom", "#[derive(derive_more::TryFrom, Debug)] #[try_from(repr)] pub enum E { A }", _helper("::derive_more::TryFromReprError<isize>")),
+    ("helper_error:TryUnwrap", "#[derive(derive_more::TryUnwrap, Debug)] pub enum E { A(i32) }", _helper("::derive_more::TryUnwrapError<m::E>")),
+    ("helper_error:Add", "#[derive(derive_more::Add, Debug)] pub enum E { A(i32), U }",
+     _helper("::derive_more::BinaryError") + _helper("::derive_more::WrongVariantError") + _helper("::derive_more::UnitError")),
+    ("helper_error:Not", "#[derive(derive_more::Not, Debug)] pub enum E { A(i32), U }", _helper("::derive_more::UnitError")),
     ("generic_alone:Sum", "#[derive(derive_more::Sum)] pub struct G<T>(pub T);\n"
      "impl<T: ::core::ops::Add<Output = T>> ::core::ops::Add for G<T> { type Output = Self; fn add(self, r: Self) -> Self { G(self.0 + r.0) } }",
      ['::std::format!("{}", ::std::vec![m::G(1i32), m::G(2)].into_iter().sum::<m::G<i32>>().0)']),
@@ -369,7 +385,8 @@ def run(chk, tier, seed, replay):
                 chk.deviation(name, f"`{key}` compiles under `full` but not with features {sorted(fs)} "
                               f"{'+ std' if std else 'alone (no std)'}: {failed[key][0]['message'][:200]}", case=case,
                               expected="compiles as under full", observed=failed[key][:3], tags={"kind": "probe_compile", "features": sorted(fs)})
-            elif (obs.get(key) or {}).get("rows") != (ref_obs.get(key) or {}).get("rows"):
+            elif [r for r in ((obs.get(key) or {}).get("rows") or []) if std or not r.startswith("std:")] != \
+                    [r for r in ((ref_obs.get(key) or {}).get("rows") or []) if std or not r.startswith("std:")]:
                 chk.deviation(name, f"`{key}` behaves differently with features {sorted(fs)} than under `full`", case=case,
                               expected=ref_obs.get(key), observed=obs.get(key), tags={"kind": "probe_behaviour", "features": sorted(fs)})
         chk.cov["traces_validated_against_impl"] += len(groups[fs])
